@@ -60,7 +60,7 @@ def make(kind):
     if kind == "Circle":
         return svg.Circle(5, 6, 7, fill="#123456", transform="translate(3,4)")
     if kind == "Ellipse":
-        return svg.Ellipse(5, 6, 7, 3, stroke="red", transform="rotate(20)")
+        return svg.Ellipse(5, 6, 7, 3, stroke="red", stroke_width=2, transform="rotate(20) scale(3)")
     if kind == "SimpleLine":
         return svg.SimpleLine(1, 2, 3, 5, stroke="red", stroke_width=4)
     if kind == "Polyline":
@@ -97,7 +97,7 @@ def make(kind):
     if kind == "MatrixLen":
         return svg.Matrix("translate(1in, 2in)")
     if kind == "Text":
-        return svg.Text("hello", x=3, y=4, fill="red", transform="scale(2)")
+        return svg.Text("hello", x=3, y=4, fill="red", stroke="blue", stroke_width=1.5, transform="scale(2)")
     if kind == "Image":
         return svg.Image(href="x.png", x=1, y=2, width=10, height=20, transform="translate(1,1)")
     raise KeyError(kind)
@@ -405,6 +405,18 @@ def check_case(case):
     if op == "copy" and kind != "Subpath":
         if snapshot(y) != sx0:
             dis.append({"clause": "CopyDiffers", "detail": "copy(%s) is not structurally equal to its source" % kind})
+    if op == "abs":
+        # abs(x) denotes x with its transform realised: whatever part of the transform stays on the result, the stroke it is
+        # drawn with (width x scale of the remaining transform) is that of x
+        try:
+            w0, w1 = x.implicit_stroke_width, y.implicit_stroke_width
+            if w0 is not None and (w1 is None or abs(w1 - w0) > 1e-9 * max(1.0, abs(w0))):
+                dis.append({"clause": "AbsDiffers", "detail": "abs(%s) is drawn with stroke width %r, its source with %r (stroke_width %r, transform %r)" % (
+                    kind, w1, w0, y.stroke_width, y.transform)})
+        except engine.CaseTimeout:
+            raise
+        except Exception as e:
+            dis.append({"clause": "AbsDiffers", "detail": "abs(%s): implicit_stroke_width raised %s" % (kind, type(e).__name__)})
         try:
             if hasattr(type(x), "__eq__") and not (y == x):
                 dis.append({"clause": "CopyNotEqual", "detail": "copy(%s) != source" % kind})
